@@ -380,8 +380,9 @@ pub fn run(ctx: &Ctx) -> Report {
     }
   }
   report.model_requests = model.requests;
-  // ---- standard output that cannot take the bytes. The device is full: a reported failure (exit status 1), not a silent
-  // success. The reader has gone away: a reported failure, a quiet end or the default death by SIGPIPE - not a panic.
+  // ---- standard output that cannot take the bytes: the reader has gone away, or the device is full. A failure, so exit
+  // status 1 with a diagnostic: not a silent success, and not a death by signal (which gives neither 0 nor 1 and reports
+  // nothing; a shell shows it as 128+13).
   if ctx.replay.is_none() || super::replay_cases(ctx).map(|rc| rc.iter().any(|v| v.get("stdout").is_some())).unwrap_or(false) {
     for (what, redirect) in [("reader-gone", "| (exec 0<&-; sleep 0.4)"), ("device-full", "> devfull")] {
       for sub in [vec!["torrent", "piece-length"], vec!["torrent", "link", "--input", "t.torrent"], vec!["torrent", "show", "--input", "t.torrent"], vec!["completions", "--shell", "zsh"]] {
@@ -401,8 +402,7 @@ pub fn run(ctx: &Ctx) -> Report {
         report.case(Some(fnv_str(&case.to_string())));
         report.hit(&format!("stdout:{what}"));
         // (bash reports a child killed by signal N as 128+N)
-        let fair = match what { "reader-gone" => matches!(o.status.code(), Some(0) | Some(1) | Some(141)), _ => o.status.code() == Some(1) };
-        if !fair {
+        if o.status.code() != Some(1) {
           report.fail("property", "stream-discipline", case, format!("standard output could not be written ({what}): exit status {:?}, expected a reported failure (1); stderr: {}", o.status.code(), String::from_utf8_lossy(&o.stderr).lines().last().unwrap_or("")));
         }
       }
